@@ -326,6 +326,8 @@ func c32hReject(err error) string {
 		return "rejected:not-the-next-height"
 	case strings.Contains(s, "is not the current header"), strings.Contains(s, "is not the current block"):
 		return "rejected:prev-hash"
+	case strings.Contains(s, "verifyHeader error") && strings.Contains(s, "LastConfigBlockNum"):
+		return "rejected:config-pointer-not-the-chain's"
 	case strings.Contains(s, "verifyHeader error"):
 		return c32RejectClass(err)
 	}
@@ -456,6 +458,14 @@ type c32hEngine struct {
 	opens  int64
 	shared int64
 	states map[string]bool // projections of the node states reached (reported, not used for pruning)
+	memo   map[string]c32hFresh
+}
+
+// c32hFresh is the (deterministic) result of one sequence on a fresh ledger.
+type c32hFresh struct {
+	steps []c32hStep
+	bad   bool
+	hist  string
 }
 
 func (e *c32hEngine) ensure(hd *c32hHandle, chain string, prefix []int, steps []c32hStep) {
@@ -500,6 +510,11 @@ func c32hNames(chain string, ops []int) []string {
 // last operation was accepted without a quorum of the governing configuration,
 // and the history class the last operation ran in.
 func (e *c32hEngine) runFresh(chain string, ops []int, judgeAll bool) (steps []c32hStep, bad bool, hist string) {
+	memo := fmt.Sprint(chain, ops)
+	if v, ok := e.memo[memo]; ok && !judgeAll {
+		return v.steps, v.bad, v.hist
+	}
+	defer func() { e.memo[memo] = c32hFresh{steps, bad, hist} }()
 	hd := &c32hHandle{}
 	e.ensure(hd, chain, nil, nil)
 	defer hd.drop()
@@ -638,7 +653,7 @@ func c32hShort(s string) string {
 		hex := (c >= '0' && c <= '9') || (c >= 'a' && c <= 'f')
 		if hex {
 			run++
-			if run > 8 {
+			if run > 4 {
 				continue
 			}
 		} else {
@@ -661,7 +676,7 @@ func TestVerif_C32_History(t *testing.T) {
 	r.Assume("a ledger is shared between a DFS node and its children only across operations that leave every mutable in-memory field of LedgerStoreImp (current block, header cache, header index, all peer tables) unchanged; such operations do not write to the stores. Every other node gets a fresh ledger on which the prefix is replayed, and the replayed outcomes must equal the ones observed on the shared ledger")
 
 	f := c32hBuild(r)
-	e := &c32hEngine{r: r, f: f, depth: depth, stale: true, states: map[string]bool{}}
+	e := &c32hEngine{r: r, f: f, depth: depth, stale: true, states: map[string]bool{}, memo: map[string]c32hFresh{}}
 
 	var rc c32hCase
 	if r.IsReplay() {
